@@ -368,8 +368,12 @@ static void cmd_gssvx(kv_t *K)
 			long double best = HUGE_VALL; int_t *ipc = (int_t *) malloc(sizeof(int_t) * (n + 1));
 			for (j = 0; j < n; ++j) ipc[S.perm_c[j]] = j;
 			for (j = 0; j < n; ++j) { long double am = 0, um = 0;
-			    for (i = 0; i < n; ++i) { long double a = cabsl(Af[i + (long) ipc[j] * n]), uu = cabsl(Ud[i + (long) j * n]); if (a > am) am = a; if (uu > um) um = uu; }
+			    /* the complex codes measure magnitudes as |re| + |im| here (z_abs1) */
+			    for (i = 0; i < n; ++i) { lc av = Af[i + (long) ipc[j] * n], uv = Ud[i + (long) j * n];
+				long double a = IS_COMPLEX ? fabsl(creall(av)) + fabsl(cimagl(av)) : cabsl(av), uu = IS_COMPLEX ? fabsl(creall(uv)) + fabsl(cimagl(uv)) : cabsl(uv);
+				if (a > am) am = a; if (uu > um) um = uu; }
 			    if (um > 0 && am / um < best) best = am / um; }
+			if (getenv("VERIF_DEBUG")) fprintf(stderr, "rpg dbg lib=%.17g oracle=%.17Lg\n", (double) rpg, best);
 			if (best < HUGE_VALL && best > 0) rpgdev = permille(fabsl((long double) rpg - best) / (best * 64.0L * UNIT_ROUNDOFF));
 			free(ipc);
 		    }
